@@ -1,6 +1,11 @@
 import Mp.ProofsSim
+import Mp.ProofsSim2
 import Mp.ProofsL3
-/-! C10 — results do not depend on the Go carrier types: property theorems. -/
+/-! C10 — property theorems (proved in the imported modules; statements are checked there, axioms audited here). -/
 #print axioms Mp.sim_normalize
 #print axioms Mp.func_carrier_independent
 #print axioms Mp.L2.path_carrier_independent
+#print axioms Mp.objectAsMap_struct
+#print axioms Mp.objectAsMap_ptr_struct
+#print axioms Mp.objectAsMap_ptr_map
+#print axioms Mp.object_receiver_carrier_independent
